@@ -63,6 +63,51 @@ def in_code(lines):
     return ok
 
 
+BENIGN_SUBS = [
+    (re.compile(r'\.map\((map|fmap|flat_map|filter_map)\)'), r'.map(|x| \1(x))', 'eta-map'),
+    (re.compile(r'\.map\(&(map|fmap|flat_map|filter_map)\)'), r'.map(|x| \1(x))', 'eta-map-ref'),
+    (re.compile(r'\.filter\((filter)\)'), r'.filter(|x| \1(x))', 'eta-filter'),
+    (re.compile(r'\.filter\(&(filter)\)'), r'.filter(|x| \1(x))', 'eta-filter-ref'),
+    (re.compile(r'\.flat_map\((map|fmap|flat_map)\)'), r'.flat_map(|x| \1(x))', 'eta-flat_map'),
+    (re.compile(r'\.flat_map\(&(map|fmap|flat_map)\)'), r'.flat_map(|x| \1(x))', 'eta-flat_map-ref'),
+    (re.compile(r'\.reduce\((reduce)\)'), r'.reduce(|a, b| \1(a, b))', 'eta-reduce'),
+    (re.compile(r'^(\s*)(\w+) \+= (.*);$'), r'\1\2 = \2 + \3;', 'plus-assign'),
+    (re.compile(r'\.unwrap_or\(0\)'), '.unwrap_or_default()', 'unwrap_or_default'),
+    (re.compile(r'(\w+) < (\w+)\.(\w+)'), r'\2.\3 > \1', 'flip-lt'),
+    (re.compile(r'(\w[\w.]*) == (\w[\w.()]*)(?=[ ;{)])'), r'\2 == \1', 'flip-eq'),
+    (re.compile(r'^(\s*)for (.*) in (.*[\w)]) \{$'), r'\1for \2 in (\3).into_iter() {', 'for-into_iter'),
+    (re.compile(r'^(\s*)while let Some\((\w+)\) = (.*) \{$'), r'\1while let Some(\2) = { let next = \3; next } {', 'while-let-block'),
+    (re.compile(r'^(\s*)if (.*\)) \{$'), r'\1if { let cond = \2; cond } {', 'if-block'),
+    (re.compile(r'\.is_some\(\)'), '.is_none() == false', 'is_some-spelled'),
+    (re.compile(r'^(\s*)(\w+)\.push\((.*)\);$'), r'\1{ let item = \3; \2.push(item); }', 'push-temp'),
+    (re.compile(r'^(\s*)let (\w+) = (.*);$'), r'\1let \2 = { \3 };', 'let-block'),
+    (re.compile(r'^(\s*)return (.*);$'), r'\1{ let value = \2; return value; }', 'return-temp'),
+    (re.compile(r'\b(a|x) \+ (b|y|1)\b'), r'\2 + \1', 'commute-add'),
+    (re.compile(r'true => (.*),$'), None, 'none'),
+]
+
+
+def gen_benign(globs):
+    muts = []
+    files = []
+    for g in globs:
+        files += sorted(glob.glob(os.path.join(REPO, g)))
+    for path in files:
+        rel = os.path.relpath(path, REPO)
+        lines = open(path).read().split('\n')
+        for i in in_code(lines):
+            ln = lines[i]
+            if SKIP_LINE.match(ln):
+                continue
+            for rx, rep, nm in BENIGN_SUBS:
+                if rep is None:
+                    continue
+                new, k = rx.subn(rep, ln, count=1)
+                if k and new != ln:
+                    muts.append({'file': rel, 'line': i + 1, 'op': 'benign:' + nm, 'old': ln, 'new': new})
+    return muts
+
+
 def gen(globs):
     muts = []
     files = []
@@ -216,6 +261,11 @@ def test_one(m):
 
 def main():
     cmd = sys.argv[1]
+    if cmd == 'gen-benign':
+        muts = gen_benign(sys.argv[3:] or DEFAULT_GLOBS)
+        json.dump(muts, open(sys.argv[2], 'w'), indent=0)
+        print(len(muts), 'benign mutants')
+        return
     if cmd == 'gen':
         muts = gen(sys.argv[3:] or DEFAULT_GLOBS)
         json.dump(muts, open(sys.argv[2], 'w'), indent=0)
